@@ -13,7 +13,7 @@
  *         the junk-marked lines                                   -> "k R full|nojunk|refull|renojunk <dump>"
  *   opt   channel from options (+files), setters, then save->init, dup, csv->set, reinit
  *   fn    line-level internals: f=setopt|sortlist|srv|srvstrict|alias
- *   hosts hosts-file lookup with and without junk lines (robustness + metamorphic only)
+ *   hosts hosts-file lookups (names=) with and without junk lines
  * Output never contains pointers or clock values.
  *
  * Hermetic environment: fopen of /etc/... is redirected (--wrap=fopen), gethostname and the
@@ -724,17 +724,37 @@ static void run_fn(long k, const params_t *p)
 }
 
 /* ------------------------------------------------------------------ kind hosts */
+/* the entry type is private to ares_hosts_file.c; only its two lists are read here */
+struct drv_hosts_entry {
+  size_t        refcnt;
+  ares_llist_t *ips;
+  ares_llist_t *hosts;
+};
+
+static void dump_strlist(ares_llist_t *l)
+{
+  ares_llist_node_t *n;
+  int                first = 1;
+  if (ares_llist_len(l) == 0) printf("-");
+  for (n = ares_llist_node_first(l); n != NULL; n = ares_llist_node_next(n)) {
+    if (!first) printf(",");
+    puthexstr((const char *)ares_llist_node_val(n));
+    first = 0;
+  }
+}
+
+/* names=<hex>,<hex>,...: every name is looked up in the hosts file made of the H/h units;
+ * output "k R hosts-full.<i> st=.. ips=.. hosts=.." and the same for hosts-nojunk */
 static void run_hosts(long k, const params_t *p)
 {
   int v;
   set_env(p);
   for (v = 0; v < 2; v++) {
-    ares_channel_t           *c = NULL;
-    optbuild_t                ob;
-    const ares_hosts_entry_t *entry = NULL;
-    char                     *name  = pget_str(p, "name");
-    ares_status_t             st;
-    int                       rc;
+    ares_channel_t *c = NULL;
+    optbuild_t      ob;
+    const char     *names = pget(p, "names");
+    const char     *q;
+    int             rc, idx = 0;
     write_sysfiles(1, 0, 0);
     if (!write_file(path_hosts, 'H', 'h', v == 0, pget(p, "noeol") != NULL)) {
       FILE *f = __real_fopen(path_hosts, "wb");
@@ -742,31 +762,26 @@ static void run_hosts(long k, const params_t *p)
     }
     build_options(p, &ob, path_resolv, path_hosts);
     rc = ares_init_options(&c, &ob.o, ob.mask);
-    if (rc != ARES_SUCCESS) { printf("%ld R hosts init=%d\n", k, rc); free(name); free_optbuild(&ob); return; }
-    st = ares_hosts_search_host(c, ARES_FALSE, name ? name : "", &entry);
-    printf("%ld R %s st=%d", k, v == 0 ? "hosts-full" : "hosts-nojunk", (int)st);
-    if (st == ARES_SUCCESS && entry != NULL) {
-      struct hostent *h4 = NULL, *h6 = NULL;
-      int             i;
-      if (ares_hosts_entry_to_hostent(entry, AF_INET, &h4) == ARES_SUCCESS && h4) {
-        printf(" v4name=");
-        puthexstr(h4->h_name);
-        printf(" v4=");
-        for (i = 0; h4->h_addr_list && h4->h_addr_list[i]; i++) { if (i) printf(","); puthex((unsigned char *)h4->h_addr_list[i], 4); }
-        printf(" al4=");
-        for (i = 0; h4->h_aliases && h4->h_aliases[i]; i++) { if (i) printf(","); puthexstr(h4->h_aliases[i]); }
-        ares_free_hostent(h4);
+    if (rc != ARES_SUCCESS) { printf("%ld R hosts init=%d\n", k, rc); free_optbuild(&ob); return; }
+    for (q = names ? names : ""; *q; idx++) {
+      const char               *e = strchr(q, ',');
+      size_t                    l = e ? (size_t)(e - q) : strlen(q);
+      char                     *name  = (char *)unhex(q, l, NULL);
+      const ares_hosts_entry_t *entry = NULL;
+      ares_status_t             st    = ares_hosts_search_host(c, ARES_FALSE, name, &entry);
+      printf("%ld R %s.%d st=%d", k, v == 0 ? "hosts-full" : "hosts-nojunk", idx, (int)st);
+      if (st == ARES_SUCCESS && entry != NULL) {
+        const struct drv_hosts_entry *de = (const struct drv_hosts_entry *)entry;
+        printf(" ips=");
+        dump_strlist(de->ips);
+        printf(" hosts=");
+        dump_strlist(de->hosts);
       }
-      if (ares_hosts_entry_to_hostent(entry, AF_INET6, &h6) == ARES_SUCCESS && h6) {
-        printf(" v6name=");
-        puthexstr(h6->h_name);
-        printf(" v6=");
-        for (i = 0; h6->h_addr_list && h6->h_addr_list[i]; i++) { if (i) printf(","); puthex((unsigned char *)h6->h_addr_list[i], 16); }
-        ares_free_hostent(h6);
-      }
+      printf("\n");
+      free(name);
+      q += l;
+      if (*q == ',') q++;
     }
-    printf("\n");
-    free(name);
     ares_destroy(c);
     free_optbuild(&ob);
   }
